@@ -166,6 +166,7 @@ type X struct {
 	stop  bool // a violation that makes continuing meaningless was recorded
 	suppress bool // only the oracles that hold for every response apply
 	pendingResync bool
+	keepResynced  bool
 	allResynced bool // every violation so far was re-synchronised
 	resynced bool // the last violation was attributed to a known family and the model was re-synchronised: the run may go on
 	extra map[string]any
@@ -187,13 +188,20 @@ func (x *X) viol(props []string, oracle, sig, detail string) {
 		SimTime: time.Since(x.start).String(), OpIndex: x.opIdx}
 	if len(x.out.Viol) == 0 {
 		x.allResynced = true
+	} else if !x.keepResynced {
+		// the previous violation was not re-synchronised
+		x.allResynced = false
 	}
+	x.keepResynced = false
 	x.out.Viol = append(x.out.Viol, v)
 	x.pendingResync = false
 }
 
 // resync marks the violation just recorded as attributed to a known family after the model was adjusted.
-func (x *X) resync() { x.resynced = true }
+func (x *X) resync() {
+	x.resynced = true
+	x.keepResynced = true
+}
 
 // endOp is called by the engine after each operation: a violation that was not re-synchronised ends clean continuation.
 func (x *X) noteViolations(before int) {
